@@ -366,3 +366,19 @@ def sindex_writers(P, R, rule='C04.d'):
     R.check(ok, rule, bs, None, 'the index is built from ALL rows of the array\'s own bounds, in array order (row numbers = array positions)',
             f'build_sindex builds the index from `{norm(arg0) if isinstance(arg0, ast.AST) else arg0}` instead of self.bounds: the row numbers it returns are not positions in the array',
             construct='self._sindex = HilbertRtree(self.bounds, ...)')
+    # ... for EVERY array: after build_sindex the index exists - each return is reached through the store, or through the branch in which the index was there
+    # already.  An early exit ("nothing to index" for an empty array) leaves `sindex` answering None, and the first query on it raises
+    import cfg as _cfg
+    Cb = _cfg.build(bs.node)
+    stores = [Cb.node(s) for s in walk_own(bs.node) if isinstance(s, ast.Assign) and norm(s.targets[0]) == 'self._sindex' and Cb.node(s) is not None]
+    for r_ in [x for x in walk_own(bs.node) if isinstance(x, ast.Return)]:
+        through = bool(stores) and Cb.every_path_passes(Cb.ENTRY, Cb.node(r_), stores)
+        if not through:
+            # paths that avoid the store must be the ones on which `self._sindex is None` was false
+            guards = [g for g in astq.own_nodes(bs, ast.If) if '_sindex' in norm(g.test) and any(Cb.node(s2) in stores for s2 in ast.walk(g) if isinstance(s2, ast.Assign) and Cb.node(s2) is not None)]
+            only_guard = bool(guards) and all(isinstance(g.test, ast.Compare) and norm(g.test) in ('self._sindex is None',) for g in guards) and \
+                not any(isinstance(x, ast.Return) and x is r_ and any(x is y for g in astq.own_nodes(bs, ast.If) if '_sindex' not in norm(g.test) for y in ast.walk(g)) for x in [r_])
+            through = only_guard
+        R.check(through, rule, bs, r_, 'every return of build_sindex is reached with the index built (or already there)',
+                f'`{norm(r_)}` leaves build_sindex without an index for some arrays (an early exit that is not the "already built" case): `sindex` then answers None and the first query raises',
+                construct=f'build_sindex: {norm(r_)} with the index built')
